@@ -12,12 +12,14 @@ CONSTANTS MaxSpine,     \* number of nested container levels (0 = scalar root)
 
 LevelClasses == {"dict", "odict", "idict", "list", "tuple", "obj"}
 Leaves == {VNone, VInt(7), VStr("s"), VStr(""), VRef(-1), VRef(-2)}   \* -1: empty dict, -2: empty list
-SideOpts == {"absent", "none", "shared", "empty", "dotted"}     \* dotted: the second entry's key is the text "a.b"
+SideOpts == {"absent", "none", "shared", "empty", "dotted", "tupkey"}     \* dotted: the second entry's key is the text "a.b";
+                                     \* tupkey: it is a compound (tuple) key, an opaque hashable value whose elements are spelled like keys
 
 \* keys of the two entries of a level
 Key1(cls) == IF cls = "idict" THEN VInt(0) ELSE VStr("a")
 Key2(cls) == IF cls = "idict" THEN VInt(1) ELSE VStr("b")
-Key2S(cls, side) == IF side = "dotted" /\ cls \in {"dict", "odict", "obj"} THEN VStr("a.b") ELSE Key2(cls)
+Key2S(cls, side) == IF side = "dotted" /\ cls \in {"dict", "odict", "obj"} THEN VStr("a.b")
+                    ELSE IF side = "tupkey" /\ cls \in {"dict", "odict"} THEN VSent("TK") ELSE Key2(cls)
 PyCls(cls) == IF cls = "idict" THEN "dict" ELSE cls
 
 MkHeap(levels, leaf, side) ==
@@ -25,7 +27,7 @@ MkHeap(levels, leaf, side) ==
       fix(v) == IF IsRef(v) /\ v.a < 0 THEN VRef(n - v.a) ELSE v     \* -1 -> n+1, -2 -> n+2
       first(i) == IF i < n THEN VRef(i + 1) ELSE fix(leaf)
       second(i) == CASE side = "none" -> VNone [] side = "shared" -> first(i) [] side = "empty" -> VRef(n + 1)
-                     [] side = "dotted" -> VInt(9) [] OTHER -> VNone
+                     [] side = "dotted" -> VInt(9) [] side = "tupkey" -> VInt(8) [] OTHER -> VNone
       cell(i) == LET c == levels[i] IN
                  IF c \in {"list", "tuple"}
                  THEN Cell(c, IF side = "absent" THEN <<first(i)>> ELSE <<first(i), second(i)>>)
@@ -36,7 +38,8 @@ MkHeap(levels, leaf, side) ==
 Root(levels, leaf) == LET n == Len(levels) IN
   IF n > 0 THEN VRef(1) ELSE IF IsRef(leaf) THEN VRef(n - leaf.a) ELSE leaf
 
-PArgs == {VStr("a"), VStr("b"), VStr("0"), VStr("1"), VStr("-1"), VStr("5"), VStr("x"), VStr(""), VInt(0), VInt(-1), VInt(2)}
+PArgs == {VStr("a"), VStr("b"), VStr("0"), VStr("1"), VStr("-1"), VStr("5"), VStr("x"), VStr(""), VInt(0), VInt(-1), VInt(2),
+          VStr("a.b"), VSent("TK")}      \* a segment holding a dot (one segment, never split) and a compound key
 TArgs == {VStr("a"), VStr("x"), VInt(0), VInt(1), VInt(-3), VStr("0")}
 AttrArgs == {VStr("a"), VStr("b"), VStr("x")}
 AllSteps == {Step("P", a) : a \in PArgs} \cup {Step("[", a) : a \in TArgs} \cup {Step(".", a) : a \in AttrArgs}
@@ -52,6 +55,7 @@ vars == <<heap, root, steps, pred, phase>>
 Init ==
   \E n \in 0..MaxSpine : \E levels \in [1..n -> LevelClasses] : \E leaf \in Leaves : \E side \in SideOpts :
     /\ (n = 0 => side = "absent")
+    /\ (side = "tupkey" => \A i \in 1..n : levels[i] \in {"dict", "odict"})      \* (elsewhere it would equal "none")
     /\ heap = MkHeap(levels, leaf, side)
     /\ root = Root(levels, leaf)
     /\ steps = <<>> /\ pred = PathEval(heap, root, <<>>) /\ phase = 0
